@@ -1095,6 +1095,23 @@ impl Hash for JsSymbol {
 /// from `borrow()` calls, matching the old `Rc<RefCell<JsObject>>` API.
 pub type JsObjectRef = Gc<JsObject>;
 
+/// Set the prototype of `obj`, refusing a value whose own prototype chain leads back to
+/// `obj` (a cyclic chain makes every property lookup recurse forever).
+pub fn set_prototype_checked(
+    obj: &JsObjectRef,
+    new_proto: Option<JsObjectRef>,
+) -> Result<(), JsError> {
+    let mut cursor = new_proto.clone();
+    while let Some(p) = cursor {
+        if Gc::ptr_eq(&p, obj) {
+            return Err(JsError::type_error("Cyclic __proto__ value"));
+        }
+        cursor = p.borrow().prototype.clone();
+    }
+    obj.borrow_mut().prototype = new_proto;
+    Ok(())
+}
+
 // Implement CheapClone for Gc<T> (clone is just Copy)
 impl<T: Default + Reset + Traceable> CheapClone for Gc<T> {}
 
